@@ -18,7 +18,9 @@ import pyrtl
 import gen_designs
 import nlx
 
-RULE = ('random API-built designs (registers with/without reset_value, read/write memories with initial '
+RULE = ('tie: copy_block assembled from fragments regenerated from transform.py/memory.py (Gen/CopyAttrs.v) vs the dump of the '
+        'real copy (every wire/net/memory) and vs the constructor attributes of every real memory copy; search: '
+        'random API-built designs (registers with/without reset_value, read/write memories with initial '
         'contents, write-only (log) and read-only MemBlocks incl. designs whose ONLY memories are write-only, every documented '
         'option combination of the three calls (merge_io_vectors, skip_sanity_check, block= given/omitted), final memory '
         'contents (inspect_mem) compared, reserved (unconnected) Input/Const pins, sources already optimize()d IN PLACE before the call (a '
@@ -33,11 +35,21 @@ RULE = ('random API-built designs (registers with/without reset_value, read/writ
         'has a register or memory and at least half of its outputs vary during the run')
 IMPORTS = ('From PyRTL Require Import Netlist.Sem Netlist.WFDefs Netlist.SpecHarness Pass.Copy.')
 COQ_TARGETS = ['theories/Netlist/SpecHarness.vo', 'theories/Pass/Copy.vo']
-TRUSTED = ['Pass/Copy.v: `rename`, `val_rel`/`state_rel` (what "the same design over other wire objects" and '
+TRUSTED = ['py/genfrag_C11.py (fail-closed translator of transform.clone_wire / _clone_block_and_wires / _copy_net / '
+           '_get_new_block_mem_instance and MemBlock/RomBlock._make_copy + the constructor signatures into '
+           'Gen/CopyAttrs.v); the hand-written model of what copy_block passes to the clones is gone',
+           'Pass/Copy.v: `rename`, `val_rel`/`state_rel` (what "the same design over other wire objects" and '
            '"behaves identically" mean), `fingerprint`; Pass/CopyHeap.v: the heap model of object aliasing '
            '(`reach`, `hfingerprint`, edit alphabet `hedit`)',
            'py/checks/C11.py `fingerprint`: the attribute list observed on real blocks']
-ASSUMPTIONS = ['optimize only (proviso of C04, inherited): the pass may replace a register whose next value is a compile-time '
+ASSUMPTIONS = ['the translated fragments are the attribute-passing part of copy_block (which constructor, which attributes, '
+               'which wires are cloned, id carried over); that constructing an object with the same arguments yields an '
+               'object with the same attributes (WireVector/MemBlock __init__ bodies) is checked by correspondence only '
+               '(copy_tie_case, mem_tie_case on every copied design)',
+               'RomBlock._make_copy does not pass build_new_roms (theorem C11_romblock_copy_keeps_all_but_build_new_roms); '
+               'the generator builds no ROM with build_new_roms=True, so the result==source attribute comparison does not '
+               'meet that case',
+               'optimize only (proviso of C04, inherited): the pass may replace a register whose next value is a compile-time '
                'constant by that constant; a from-reset difference of the optimize result is NOT flagged when it disappears once '
                'every register the pass eliminated (registers of the source with no counterpart in the result) starts out holding '
                'the value it settles to; such cases are counted (optimize_constant_register_proviso); any other difference is a '
@@ -129,6 +141,33 @@ def rom_data_addresses(m):
 
 MEM_ATTR_NAMES = ['id', 'name', 'class', 'bitwidth', 'addrwidth', 'asynchronous', 'rom_contents',
                   'max_read_ports', 'max_write_ports', 'pad_with_zeros', 'build_new_roms', 'rom_data_addresses']
+
+
+def _name_code(nm):
+    import zlib
+    return zlib.crc32(nm.encode()) & 0x3fffffff
+
+
+def _optz(v):
+    return -1 if v is None else int(v)
+
+
+def mattrs_code(m):
+    """the real object's constructor attributes, coded like Pass/Copy.v mattrs_code"""
+    rom = isinstance(m, pyrtl.RomBlock)
+    return [m.id, _name_code(m.name), m.bitwidth, m.addrwidth, int(bool(m.asynchronous)), _optz(m.max_read_ports),
+            _optz(m.max_write_ports), int(rom), int(bool(m.pad_with_zeros)) if rom else 0,
+            int(bool(m.build_new_roms)) if rom else 0]
+
+
+def mattrs_coq(m):
+    """the source memory's attributes as a Coq `mattrs` term (romdata itself is compared by copy_tie_case)"""
+    rom = isinstance(m, pyrtl.RomBlock)
+    opt = lambda v: 'None' if v is None else '(Some %d)' % v
+    b = lambda v: 'true' if v else 'false'
+    return '(mkMAttrs %d %d %d %d %s %s %s %s %s %s)' % (
+        m.id, _name_code(m.name), m.bitwidth, m.addrwidth, b(m.asynchronous), opt(m.max_read_ports),
+        opt(m.max_write_ports), '(Some [])' if rom else 'None', b(rom and m.pad_with_zeros), b(rom and m.build_new_roms))
 
 
 def mem_attrs(m):
@@ -1011,6 +1050,7 @@ def run(ctx, only=None):
     ndesigns = 36 if ctx.tier == 'quick' else 250
     spec_exprs, spec_meta = [], []
     tie_exprs, tie_meta = [], []
+    memtie_exprs, memtie_meta = [], []
     for i in (range(ndesigns) if only is None else [only]):
         for ai, api in enumerate(APIS):
             scenario = 'other-working-block' if (i + ai) % 4 == 3 else 'source-is-working-block'
@@ -1056,6 +1096,12 @@ def run(ctx, only=None):
                     cp_canon = nlx.Dump(res, net_order=canon_nets(res)).coq()
                     tie_exprs.append('copy_tie_case %s %s' % (src_canon, cp_canon))
                     tie_meta.append(dict(i=i, scenario=scenario, names=sorted(w.name for w in src.wirevector_set)))
+                    sm, rm = mems_of(src), mems_of(res)
+                    ids = sorted(k for k in sm if k in rm)
+                    if ids:
+                        memtie_exprs.append('mem_tie_case [%s]' % '; '.join(mattrs_coq(sm[k]) for k in ids))
+                        memtie_meta.append(dict(i=i, scenario=scenario, real=[mattrs_code(rm[k]) for k in ids],
+                                                names=[sm[k].name for k in ids]))
                 except Exception as e:
                     ctx.model_mismatch('the result of copy_block could not be dumped: %r' % e, {'design': i})
             # histories: a second non-updating call on the first result (copy of a copy, synthesize of a
@@ -1134,13 +1180,27 @@ def run(ctx, only=None):
                                    'got %s)' % (diffs[0] if diffs else ('length %d' % len(required), 'length %d' % len(real))),
                                    rep)
         if real != model_asis:
-            hint = (' -- `clone_kind` in coq/theories/Pass/Copy.v says what transform.clone_wire does (clone_kind_spec: keeps '
-                    'every attribute; clone_kind_f2: drops reset_value); it no longer matches /repo: switch it and swap the '
-                    'marked theorem in Props/C11.v')
-            if real == required:
-                hint += ' (the real copy keeps every attribute: use clone_kind_spec)'
-            ctx.model_mismatch('Pass/Copy.v copy_block (model of the code as it is) differs from the real copy_block result'
+            hint = (' (the model is assembled from Gen/CopyAttrs.v, regenerated from transform.py/memory.py by '
+                    'py/genfrag_C11.py: the translated fragments no longer explain what copy_block does)')
+            ctx.model_mismatch('Pass/Copy.v copy_block_gen (copy_block assembled from the regenerated fragments) differs from the real copy_block result'
                                + hint, rep)
+
+
+    # ---- attribute-level tie for memories: generated _make_copy / _get_new_block_mem_instance vs the real copies
+    try:
+        memtie_results = ctx.coq_eval(memtie_exprs, IMPORTS, tag='c11memtie', shard=40, jobs=8) if memtie_exprs else []
+    except Exception as e:
+        memtie_results = []
+        ctx.model_mismatch('Gen/CopyAttrs.v mem_tie_case could not be evaluated: %s' % str(e)[-600:], {})
+    for m, r in zip(memtie_meta, memtie_results):
+        if [list(x) for x in r] != m['real']:
+            k = next(k for k in range(len(m['real'])) if list(r[k]) != m['real'][k])
+            ctx.model_mismatch('the attributes of the real copy of memory %s differ from what the translated '
+                               'MemBlock/RomBlock._make_copy + _get_new_block_mem_instance give (fields id,name,bitwidth,'
+                               'addrwidth,asynchronous,max_read_ports,max_write_ports,is_rom,pad_with_zeros,build_new_roms): '
+                               'generated %s, real %s' % (m['names'][k], list(r[k]), m['real'][k]),
+                               {'seed': ctx.seed, 'design': m['i'], 'scenario': m['scenario']})
+        ctx.count('memory_attribute_tie', len(m['real']))
 
 
 def replay(ctx, data):
